@@ -10,9 +10,14 @@ use std::collections::BTreeMap;
 use std::process::{Command, Stdio};
 use std::time::{Duration, Instant};
 
-pub const OPS: [&str; 6] = ["parse", "print", "clone", "compare", "drop", "evaluate"];
-pub const CONSTRUCTS: [&str; 12] = ["neg-chain", "not-chain", "add-left-deep", "and-left-deep", "eq-left-deep", "add-right-nested", "builtin-call-nested", "list-nested", "map-nested", "if-in-condition", "if-else-chain", "index-chain"];
-pub const PARSE_ONLY: [&str; 2] = ["parentheses", "user-call-nested"];
+pub const OPS: [&str; 7] = ["parse", "print", "debug", "clone", "compare", "drop", "evaluate"];
+pub const CONSTRUCTS: [&str; 20] = [
+    "neg-chain", "not-chain", "add-left-deep", "and-left-deep", "eq-left-deep", "add-right-nested", "builtin-call-nested", "list-nested", "map-nested", "if-in-condition", "if-else-chain", "index-chain",
+    "bitand-left-deep", "lt-left-deep", "contains-nested", "if-in-then", "some-none-nested", "list-flat", "map-flat", "string-long",
+];
+/// constructs probed with `parse` only (their evaluation needs a ruleset or is the same tree as another construct),
+/// and rule texts probed through Rule::parse
+pub const PARSE_ONLY: [&str; 4] = ["parentheses", "user-call-nested", "rule-with-nested-metadata", "rule-with-many-comment-lines"];
 pub const STACKS: [&str; 2] = ["main-8MiB", "thread-2MiB"];
 
 pub fn text_for(construct: &str, n: usize) -> String {
@@ -31,6 +36,17 @@ pub fn text_for(construct: &str, n: usize) -> String {
         "if-else-chain" => format!("{}i1", "if false then i1 else ".repeat(n)),
         "index-chain" => format!("facts{}", ".b".repeat(n)),
         "parentheses" => format!("{}i1{}", "(".repeat(n), ")".repeat(n)),
+        "bitand-left-deep" => format!("i1{}", " & i1".repeat(n)),
+        "lt-left-deep" => format!("i1{}", " < i1".repeat(n)),
+        "contains-nested" => format!("{}[]{}", "(".repeat(n), " contains i1)".repeat(n)),
+        "if-in-then" => format!("{}i1{}", "if true then ".repeat(n), " else i2".repeat(n)),
+        "some-none-nested" => format!("{}i1{}", "some(none(".repeat(n), "))".repeat(n)),
+        // long but flat
+        "list-flat" => format!("[{}i1]", "i1, ".repeat(n)),
+        "map-flat" => format!("{{{}z: i1}}", (0..n).map(|i| format!("k{i}: i1, ")).collect::<String>()),
+        "string-long" => format!("\"{}\"", "0123456789".repeat(n)),
+        "rule-with-nested-metadata" => format!("// name\n@m: {}i1{};\ni1", "[".repeat(n), "]".repeat(n)),
+        "rule-with-many-comment-lines" => format!("{}i1", "// line\n".repeat(n)),
         _ => panic!("construct {construct}"),
     }
 }
@@ -41,6 +57,12 @@ pub fn probe(op: &str, construct: &str, depth: usize, stack: &str) -> i32 {
     let construct = construct.to_string();
     let body = move || {
         let text = text_for(&construct, depth);
+        if op == "parse" && construct.starts_with("rule-") {
+            let r = reval::prelude::Rule::parse(&text);
+            let ok = r.is_ok();
+            std::mem::forget(r);
+            return if ok { 0 } else { 3 };
+        }
         if op == "parse" {
             let r = Expr::parse(&text);
             let ok = r.is_ok();
@@ -55,6 +77,11 @@ pub fn probe(op: &str, construct: &str, depth: usize, stack: &str) -> i32 {
         match op.as_str() {
             "print" => {
                 let s = tree.to_string();
+                std::mem::forget(s);
+                std::mem::forget(tree);
+            }
+            "debug" => {
+                let s = format!("{tree:?}");
                 std::mem::forget(s);
                 std::mem::forget(tree);
             }
@@ -282,7 +309,7 @@ pub fn drive(tier: Tier) -> i32 {
         exhaustive_part: "the full grid operations x constructs x stacks (x profiles in the thorough tier)".into(),
         ..Default::default()
     };
-    fin.floors.push(floor(format!("cells explored: {}", results.len()), results.len() >= 6 * 12 * 2));
+    fin.floors.push(floor(format!("cells explored: {}", results.len()), results.len() >= 7 * 20 * 2));
     fin.extras.insert("threshold_table".into(), json!(table));
     fin.extras.insert("cells_crashing".into(), json!(crashing));
     fin.extras.insert("cells_surviving_1e5".into(), json!(results.iter().filter(|r| r.crashed_at.is_none() && r.survived >= 100_000).count()));
